@@ -110,6 +110,7 @@ pub struct Recorder {
     pub frozen: bool,
     pub trace: Option<PathBuf>,
     pub notes: Vec<String>,
+    pub leak_check_every_case: bool,
     sample_tick: u64,
 }
 
@@ -441,6 +442,7 @@ fn run_regressions(exe: &Path, id: &str) -> (usize, Vec<(PathBuf, String)>) {
 }
 
 pub fn run_check(check: &dyn Check, tier: Tier) -> i32 {
+    crate::xtapi::install_panic_hook();
     let started = Instant::now();
     let exe = std::env::current_exe().expect("current_exe");
     let id = check.id();
@@ -515,6 +517,7 @@ pub fn run_check(check: &dyn Check, tier: Tier) -> i32 {
     let mut classes: BTreeMap<String, u64> = BTreeMap::new();
     let mut excluded: BTreeMap<String, u64> = BTreeMap::new();
     let mut samples: Vec<J> = vec![];
+    let mut sample_pool: Vec<(u32, J)> = vec![];
     let mut rejects = 0u64;
     let mut per_unit: BTreeMap<String, J> = BTreeMap::new();
     let mut notes: Vec<String> = vec![];
@@ -546,9 +549,8 @@ pub fn run_check(check: &dyn Check, tier: Tier) -> i32 {
                 if let Some(a) = rec["samples"].as_array() {
                     for (i, s) in a.iter().enumerate() {
                         // spread samples over units and shards
-                        if r.shard == 0 && i < 3 || (r.shard == 1 && i == 4) {
-                            samples.push(json!({"unit": uname, "case": s}));
-                        }
+                        let prio = (i as u32) * 64 + r.shard;
+                        sample_pool.push((prio, json!({"unit": uname, "case": s})));
                     }
                 }
                 if let Some(a) = rec["notes"].as_array() {
@@ -584,6 +586,20 @@ pub fn run_check(check: &dyn Check, tier: Tier) -> i32 {
                 let st = child.wait();
                 let crashed_again = !matches!(&st, Ok(s) if s.success());
                 let traced = std::fs::read_to_string(&trace).ok().and_then(|t| serde_json::from_str::<J>(&t).ok());
+                let retry_record = std::fs::read_to_string(&out).ok().and_then(|t| serde_json::from_str::<J>(&t).ok());
+                let retry_failure = retry_record.as_ref().and_then(|r| r.get("failure").filter(|f| !f.is_null()).cloned());
+                if let (false, Some(f)) = (crashed_again, &retry_failure) {
+                    // the traced re-run attributed the problem to a case by itself
+                    let msg = f["message"].as_str().unwrap_or("").to_string();
+                    let mut case = f["case"].clone();
+                    if case.get("unit").is_none() {
+                        case["unit"] = json!(uname);
+                    }
+                    let p = write_replay(id, &msg, &case);
+                    println!("failure in unit {} shard {} (traced re-run): {}", uname, r.shard, msg);
+                    violations.push((msg, p));
+                    continue;
+                }
                 match (crashed_again, traced) {
                     (true, Some(mut case)) => {
                         if case.get("unit").is_none() {
@@ -606,7 +622,23 @@ pub fn run_check(check: &dyn Check, tier: Tier) -> i32 {
             }
         }
     }
-    samples.truncate(14);
+    sample_pool.sort_by_key(|(p, _)| *p);
+    // a few per unit, lowest priority number first
+    let mut per_unit_taken: BTreeMap<String, usize> = BTreeMap::new();
+    for (_, s) in sample_pool {
+        let u = s["unit"].as_str().unwrap_or("").to_string();
+        let n = per_unit_taken.entry(u).or_insert(0);
+        if *n < 4 && samples.len() < 16 {
+            *n += 1;
+            samples.push(s);
+        }
+    }
+    for (msg, p) in &violations {
+        samples.push(json!({"violation": msg.lines().next().unwrap_or(""), "replay": p.display().to_string()}));
+    }
+    if samples.is_empty() {
+        samples.push(json!({"note": "no case completed"}));
+    }
 
     // 4. known findings
     let known = load_known(id);
